@@ -56,15 +56,13 @@ theorem arcS_le_one {a : Agent} (h : Inv a) (hp : PrflxRel0 a) (c : Cand) :
   obtain ⟨e2, he2, rfl⟩ := List.mem_map.1 h2
   obtain ⟨m1, n1, t1, a1, _⟩ := arcReplaced_mem he1
   obtain ⟨m2, n2, t2, a2, _⟩ := arcReplaced_mem he2
-  have f1 := arcReplaced_form he1
-  have f2 := arcReplaced_form he2
   have r1 := hp (core e1) (mem_rcsOf m1) t1
   have r2 := hp (core e2) (mem_rcsOf m2) t2
   rcases pairwise_mem h.s.remNE (mem_rcsOf m1) (mem_rcsOf m2) with h3 | h3 | h3
   · have := congrArg Cand.uid h3; simpa using this
-  · simp [Cand.equal, Cand.taEqual, n1, n2, a1, a2, t1, t2, f1, f2] at h3
+  · simp [Cand.equal, Cand.taEqual, n1, n2, a1, a2, t1, t2] at h3
     simp at r1 r2; rw [r1, r2] at h3; simp at h3
-  · simp [Cand.equal, Cand.taEqual, n1, n2, a1, a2, t1, t2, f1, f2] at h3
+  · simp [Cand.equal, Cand.taEqual, n1, n2, a1, a2, t1, t2] at h3
     simp at r1 r2; rw [r1, r2] at h3; simp at h3
 
 theorem NoDupPairs.stage3 {a : Agent} (h : Inv a) (hc : a.closed = false) (hd : NoDupPairs a) (hp : PrflxRel0 a)
@@ -153,62 +151,15 @@ theorem dup_trans {e : Ev} {w : Bool} (hok : evOK e = true) {b c : Agent} (hi : 
 
 /-! ## literal forms
 
-`transportAddressEqual` compares `Address()` strings, so two remote candidates created from two literals of ONE
-address (`10.0.0.3` / `::ffff:10.0.0.3`) are not `Equal`: both are kept.  In histories that only signal canonical
-literals every remote candidate is in canonical form (discovered peer-reflexive candidates always are), and the
-remote candidates are then pairwise different as canonical candidates. -/
+Since the fix of FORMS-1/2 `transportAddressEqual` compares the canonical addresses of the two `Address()`
+literals, so `Cand.form` (the spelling a candidate was signalled with) takes part in no comparison of the model:
+`Equal` IS equality of the canonical candidate. -/
 
-/-- every remote candidate was created from the canonical literal of its address -/
-def RemForm0 (a : Agent) : Prop := ∀ x ∈ rcsOf a, x.form = 0
-
-/-- the event does not signal a remote candidate through a non-canonical address literal -/
-def evCanon : Ev → Bool
-  | .addRemote _ c => c.form == 0
-  | _ => true
-
-/-- `Equal` with the address compared canonically (what the property text means by "the same candidate") -/
+/-- `Equal` with the address compared canonically and the literal ignored (what the property text means by "the
+same candidate"), written independently of `Cand.equal` -/
 def canonEqual (x y : Cand) : Bool := x.net == y.net && x.addr == y.addr && x.ty == y.ty && x.rel == y.rel
 
-theorem canonEqual_of_form {x y : Cand} (hf : x.form = y.form) : canonEqual x y = x.equal y := by
-  simp only [canonEqual, Cand.equal, Cand.taEqual, hf, beq_self_eq_true, Bool.and_true]
-
-theorem RemForm0.stage3 {a : Agent} (h : Inv a) (hp : RemForm0 a) (c : Cand) (hsrc : c.form = 0) :
-    RemForm0 (arcA3 a c) := by
-  intro x hx
-  rw [arcA3_rcs a c h] at hx
-  have := (List.mem_filter.1 hx).1
-  rcases List.mem_append.1 this with hx' | hx'
-  · exact hp x hx'
-  · simp at hx'; subst hx'
-    have := congrArg Cand.form (core_arcC a c)
-    simpa [arcC0, hsrc] using this
-
-theorem form_trans {e : Ev} {w : Bool} (hok : evCanon e = true) {b c : Agent} (hi : Inv b)
-    (hp : RemForm0 b) (t : Trans e w b c) : RemForm0 c := by
-  cases t with
-  | evo h => unfold RemForm0; rw [h.rcs]; exact hp
-  | addP h =>
-    cases h with
-    | none => exact hp
-    | add l r hl hr hn hfresh => exact hp
-  | wf _ h =>
-    obtain ⟨_, _, h3, _⟩ := h.wiped
-    simp [RemForm0, rcsOf, h3]
-  | connState s hs hn => exact hp
-  | «local» c hc hf => exact hp
-  | remote c hc hb hf hsrc =>
-    refine hp.stage3 hi c ?_
-    rcases hsrc with ⟨_, _, h3⟩ | ⟨now, he⟩
-    · exact h3
-    · subst he
-      simpa [evCanon] using hok
-  | cache x hl hr hc => exact hp
-  | restart now u p _ _ => simp [RemForm0, rcsOf, restartCore, Agent.wipe, Agent.resetSelector]
-  | close _ _ => simp [RemForm0, rcsOf, closeCore]
-
-theorem form_step {a : Agent} (hi : Inv a) (hp : RemForm0 a) (e : Ev) (hok : evCanon e = true) :
-    RemForm0 (step a e).1 :=
-  Chain.preserves (fun x => RemForm0 x) (fun _ _ hb hq t => form_trans hok hb hq t) hi hp (step_chain hi e)
+theorem canonEqual_eq (x y : Cand) : canonEqual x y = x.equal y := rfl
 
 theorem dup_step {a : Agent} (hi : Inv a) (hd : NoDupPairs a) (hp : PrflxRel0 a) (e : Ev) (hok : evOK e = true) :
     NoDupPairs (step a e).1 ∧ PrflxRel0 (step a e).1 :=
